@@ -65,6 +65,8 @@ var labIfs = []labIf{
 	{31, topology.Child, 1}, {32, topology.Child, 1}, {33, topology.Child, 2},
 	{41, topology.Peer, 1}, {42, topology.Peer, 1}, {43, topology.Peer, 2},
 	{51, topology.Unset, 1}, {53, topology.Unset, 2},
+	// a third router, so that a second, different sibling link exists
+	{14, topology.Core, 3}, {24, topology.Parent, 3}, {34, topology.Child, 3},
 }
 
 func labIfByID(id uint16) labIf {
@@ -137,9 +139,9 @@ func newLab(fatal func(string, ...any), c labCfg) *lab {
 		} else {
 			li := control.LinkInfo{Provider: "udpip",
 				Local:  control.LinkEnd{IA: labLocal, Addr: "10.0.0.1:30042"},
-				Remote: control.LinkEnd{IA: labNeighbor(x.id), Addr: "10.0.0.2:30042"},
+				Remote: control.LinkEnd{IA: labNeighbor(x.id), Addr: fmt.Sprintf("10.0.0.%d:30042", x.owner)},
 				LinkTo: x.lt, BFD: bfdCfg, MTU: 1400}
-			chk(dp.AddNextHop(x.id, li, ih, addr.MustParseHost("10.0.0.2")))
+			chk(dp.AddNextHop(x.id, li, ih, addr.MustParseHost(fmt.Sprintf("10.0.0.%d", x.owner))))
 		}
 	}
 	if c.svc {
@@ -546,4 +548,9 @@ func decodeSCMP(raw []byte) (*scmpInfo, error) {
 		i.quote = sc.Payload[24:]
 	}
 	return &i, nil
+}
+
+// hostAddr is the underlay source address of the local end host that sends k.
+func (l *lab) hostAddr(k *forgeCase) *net.UDPAddr {
+	return &net.UDPAddr{IP: k.opts.srcHost.IP().AsSlice(), Port: int(k.opts.sport)}
 }
